@@ -458,9 +458,11 @@ func (w *worker[T, JobType]) closeChannels() {
 // stopAndRemoveAllWorkers removes all nodes from the list and closes the pool nodes
 func (w *worker[T, JobType]) stopAndRemoveAllWorkers() {
 	for _, node := range w.pool.NodeSlice() {
-		w.pool.Remove(node)
-		node.Value.Stop()
-		w.pool.Cache.Put(node)
+		// a concurrent Stop (e.g. the context listener) may work on the same snapshot
+		if w.pool.Remove(node) {
+			node.Value.Stop()
+			w.pool.Cache.Put(node)
+		}
 	}
 }
 
